@@ -66,8 +66,14 @@ def allowed_upper_bound(doc) -> int:
     return bound * perms
 
 
-def outputs_of(jp, env, q, doc, cap):
-    c = env.compile(q)
+def outputs_of(jp, env, q, doc, cap, late_flag=False):
+    if late_flag:
+        # compile first, switch nondeterminism on afterwards, on the instance
+        env = jp.JSONPathEnvironment()
+        c = env.compile(q)
+        env.nondeterministic = True
+    else:
+        c = env.compile(q)
 
     def one():
         try:
@@ -134,7 +140,7 @@ def run(chk: core.Check, tier: str, seed: int) -> None:
             chk.skipped += 1
             continue
         for q in (QUERIES if (tier != "quick" or d in WITNESSES[:8]) else rng.sample(QUERIES, 5)):
-            results, complete, runs = outputs_of(jp, env, q, d, cap)
+            results, complete, runs = outputs_of(jp, env, q, d, cap, late_flag=(len(recs) % 2 == 1))
             total_runs += runs
             outs = sorted(set(results), key=repr)
             if any(o and o[0] == "raised" for o in outs):
